@@ -25,29 +25,29 @@ type Message struct {
 }
 
 // newMessage creates a new FileMessage object and sets the Date and ID fields.
-// It will also delete messages over messageCap if configured.
-func (mb *mbox) newMessage() (*Message, error) {
+// It also drops messages over messageCap, if configured, from the in-memory index and returns
+// them: the caller persists the index once, together with the new message, and then disposes
+// of the evicted ones, so that an interrupted delivery leaves the mailbox as it was.
+func (mb *mbox) newMessage() (*Message, []*Message, error) {
 	// Load index
 	if !mb.indexLoaded {
 		if err := mb.readIndex(); err != nil {
-			return nil, err
+			return nil, nil, err
 		}
 	}
-	// Delete old messages over messageCap
+	// Drop old messages over messageCap
+	var evicted []*Message
 	if mb.store.messageCap > 0 {
 		for len(mb.messages) >= mb.store.messageCap {
 			log.Info().Str("module", "storage").Str("mailbox", mb.name).
 				Msg("Mailbox over message cap")
-			id := mb.messages[0].ID()
-			if err := mb.removeMessage(id); err != nil {
-				log.Error().Str("module", "storage").Str("mailbox", mb.name).Str("id", id).
-					Err(err).Msg("Unable to delete message")
-			}
+			evicted = append(evicted, mb.messages[0])
+			mb.messages = mb.messages[1:]
 		}
 	}
 	date := time.Now()
 	id := generateID(date)
-	return &Message{mailbox: mb, Fid: id, Fdate: date}, nil
+	return &Message{mailbox: mb, Fid: id, Fdate: date}, evicted, nil
 }
 
 // Mailbox returns the name of the mailbox this message resides in.
